@@ -224,6 +224,11 @@ class World:
         x = self.fetch(rootkey, "ctor" if self.handles[rootkey].get("ctor") is not None else "view")
         return self.walk(x, path)
 
+    def npint(self, q):
+        """the index q as a NumPy integer of a random type that can represent it"""
+        types = [t for t in (np.uint8, np.int8, np.int16, np.uint16, np.int32, np.uint32, np.int64, np.intp) if np.iinfo(t).min <= q <= np.iinfo(t).max]
+        return self.rng.choice(types)(q)
+
     def walk(self, x, path):
         for s in path:
             if s[0] == "f":
@@ -601,6 +606,8 @@ class World:
                 setattr(parent, self.ns.fname(last[1]), py)
             else:
                 idx = tuple(last[1])
+                if rng.random() < getattr(self, "npidx_p", 0.15):
+                    idx = tuple(self.npint(q) for q in idx)        # indices that are NumPy integers of any width that holds them
                 parent[idx[0] if len(idx) == 1 and rng.random() < 0.5 else idx] = py
         except Exception as ex:          # noqa: a fitting assignment that raises is reported by TLC as set:raised
             exc = type(ex).__name__ + ":" + str(ex)[-160:]
